@@ -197,9 +197,10 @@ class Call2Mixin:
             n_ = self.fresh_int('nargs')
             self.assume(n_ >= 0)
             ev_.args = VSeq(z3.Array(self.path.fresh_name('excargs'), z3.IntSort(), Obj), n_, 'obj')
-          if exc in ('queue.Empty', 'queue.Full'):     # the callee tested the waited-for condition
-            self.seq += 1
-            self.last_cond_check = self.seq
+          if exc in c.cond_tests:                      # the callee tested wake-up conditions before raising
+            self.note_cond_test(c.cond_tests[exc])
+          elif exc in ('queue.Empty', 'queue.Full'):
+            self.note_cond_test(['content'])
           env3 = dict(env)
           env3['raised'] = ev_
           for e in posts:
@@ -223,6 +224,8 @@ class Call2Mixin:
       self.path.ctx = f'assumed postcondition of {c.short}: {e}'
       self.assume(self.spec(e, env2, old))
     self.call_log.append((c.short, res))
+    if 'return' in c.cond_tests and not self.spec_mode:
+      self.note_cond_test(c.cond_tests['return'])
     return res
 
   def havoc_path(self, env, path):
